@@ -1,20 +1,135 @@
 (* Props/C11.v — the theorems that decide property C11.  Statements only;
    every proof is [exact <lemma>]. *)
 From Coq Require Import List NArith.
-From CKB Require Import Pool.PoolMap Pool.Inv Pool.Check Pool.Witness Pool.PoolProofs.
+From CKB Require Import Pool.PoolMap Pool.Inv Pool.Check Pool.Witness Pool.ListFacts Pool.CounterProofs Pool.RbfProofs Pool.EdgeProofs Pool.PoolProofs.
+Import ListNotations.
+Local Open Scope N_scope.
 
+(* the empty pool satisfies every clause I0..I6 *)
 Theorem c11_inv_init : forall m, pool_inv (empty_pool m) = true.
 Proof. exact inv_init. Qed.
 
+(* clause I0 + I5 (the entries map is a map; total size / total cycles / pending /
+   gap / proposed equal folds over the entries), at full strength, for add_entry
+   (with the eviction branch), remove_entry, remove_entry_and_descendants,
+   remove_committed_tx (resolve_conflict), resolve_conflict_header_dep, set_entry,
+   limit_size and remove_expired; also: the ancestor limit never changes.
+   small_op: the two u64 totals do not saturate on insertion; ODetach is not covered. *)
+Theorem c11_inv_step_counters : forall p o p', CI p -> small_op p o -> step p o = Some p' ->
+  CI p' /\ p_max_anc p' = p_max_anc p.
+Proof. exact counters_step. Qed.
+
+Theorem c11_inv_reachable_counters : forall ops p p', CI p -> run_small p ops -> run p ops = Some p' ->
+  CI p' /\ p_max_anc p' = p_max_anc p.
+Proof. exact counters_reachable. Qed.
+
+(* CI is what the boolean checker clauses say *)
+Theorem c11_counters_bool : forall p, counters_ok p = true <-> CI p.
+Proof. exact counters_ok_CI. Qed.
+
+Theorem c11_limit_size_bound : forall p m p', CI p -> limit_size p m = Some p' -> p_total_size p' <= m.
+Proof. exact limit_size_bound. Qed.
+
+(* clause I1, building blocks (partial: the step theorem for I1 is not assembled):
+   add_entry's edge recording refuses a tx that spends a cell a pooled tx spends,
+   otherwise it maps exactly the new inputs to the new tx; remove_entry's edge
+   removal deletes exactly the removed tx's inputs *)
+Theorem c11_inputs_add_partial : forall p t p', record_entry_edges p t = Some p' ->
+  (forall i, In i (tx_inputs t) -> aget pt_eqb i (p_inputs p) = None) /\
+  (forall o, aget pt_eqb o (p_inputs p') =
+             if existsb (pt_eqb o) (tx_inputs t) then Some (tx_id t) else aget pt_eqb o (p_inputs p)).
+Proof. exact record_edges_inputs. Qed.
+
+Theorem c11_double_spend_refused : forall p t i id,
+  In i (tx_inputs t) -> aget pt_eqb i (p_inputs p) = Some id -> record_entry_edges p t = None.
+Proof. exact record_edges_refuses_double_spend. Qed.
+
+Theorem c11_inputs_remove_partial : forall p t o,
+  aget pt_eqb o (p_inputs (remove_entry_edges p t)) =
+  if existsb (pt_eqb o) (tx_inputs t) then None else aget pt_eqb o (p_inputs p).
+Proof. exact remove_edges_inputs. Qed.
+
+(* removal really removes: the entry and all its descendants are no longer pooled *)
+Theorem c11_remove_with_descendants_gone : forall p id p' x, CI p ->
+  remove_entry_and_descendants p id = Some p' ->
+  (x = id \/ In x (calc_descendants p id)) -> ~ In x (ids p').
+Proof. exact red_gone. Qed.
+
+(* RBF: admitted only if fee >= sum of the fees of the replaced txs (conflicts and
+   their descendants, each once) + min_rbf_rate * size / 1000; at most 100 replaced *)
+Theorem c11_rbf_rule : forall p oc t rate cs, check_rbf p oc t rate = Some cs -> cs <> [] ->
+  cs = find_conflict_tx p t /\
+  sum_fees p (replaced_set p cs) + sat_mul rate (tx_size t) / 1000 <= tx_fee t /\
+  sum_fees p (replaced_set p cs) + sat_mul rate (tx_size t) / 1000 <= U64MAX /\
+  N.of_nat (length (flat_map (calc_descendants p) cs) + length cs) <= MAX_REPLACEMENT_CANDIDATES.
+Proof. exact rbf_rule. Qed.
+
+Theorem c11_rbf_conflicts : forall p t c,
+  In c (find_conflict_tx p t) <-> exists i, In i (tx_inputs t) /\ aget pt_eqb i (p_inputs p) = Some c.
+Proof. exact find_conflict_spec. Qed.
+
+(* after process_rbf no replaced (conflicting) tx is pooled any more *)
+Theorem c11_rbf_conflicts_gone : forall p cs p' c, CI p ->
+  remove_all_with_descendants p cs = Some p' -> In c cs -> pooled p' c = false.
+Proof. exact rbf_conflicts_gone. Qed.
+
+(* non-vacuity: a reachable diamond-shaped pool (shared cell dep, header dep, three
+   statuses) satisfies every clause; its history satisfies run_small *)
 Theorem c11_example_state : exists p, diamond_state = Some p /\ pool_inv p = true /\ length (p_entries p) = 5%nat.
 Proof. exact diamond_state_inv. Qed.
 
+Theorem c11_example_small : run_small (empty_pool 125) diamond_ops.
+Proof. exact diamond_small. Qed.
+
+Theorem c11_example_counters : exists p, diamond_state = Some p /\ counters_ok p = true.
+Proof. exact diamond_counters. Qed.
+
+(* F3 (known finding): the aggregate clause I4 is NOT preserved by add_entry when the
+   new tx already has pooled children, although the callers' preconditions hold *)
 Theorem c11_add_with_children_refuted :
   exists p p', f3_before = Some p /\ pool_inv p = true /\ add_pre p wP = true
                /\ has_pooled_children p wP = true
-               /\ add_entry p wP Pending = Some (p', 0%N) /\ pool_inv_core p' = true /\ inv_aggs p' = false.
+               /\ add_entry p wP Pending = Some (p', 0) /\ pool_inv_core p' = true /\ inv_aggs p' = false.
 Proof. exact add_with_children_refuted. Qed.
 
+(* F10 (known finding): nor by remove_entry of a tx with pooled ancestors and descendants *)
+Theorem c11_remove_inner_refuted :
+  exists p p', f8_before = Some p /\ pool_inv p = true
+               /\ remove_entry p 2 = Some p' /\ pool_inv_core p' = true /\ inv_aggs p' = false.
+Proof. exact remove_inner_refuted. Qed.
+
+(* F9 (known finding): add_entry panics on a consistent pool *)
+Theorem c11_add_evict_panic_refuted :
+  exists p, f9_before = Some p /\ pool_inv p = true /\ add_pre p nT = true /\ add_entry p nT Pending = None.
+Proof. exact add_evict_panic_refuted. Qed.
+
+(* F8 (repaired by a fix: commit): remove_entry_and_descendants as it was, and as it is *)
+Theorem c11_remove_with_descendants_old_refuted :
+  exists p p', f8_before = Some p /\ pool_inv p = true
+               /\ remove_entry_and_descendants_old p 2 = Some p' /\ inv_aggs p' = false.
+Proof. exact remove_with_descendants_old_refuted. Qed.
+
+Theorem c11_remove_with_descendants_fixed_on_witness :
+  exists p p', f8_before = Some p /\ remove_entry_and_descendants p 2 = Some p' /\ pool_inv p' = true.
+Proof. exact remove_with_descendants_fixed_on_witness. Qed.
+
 Redirect "out/C11.c11_inv_init" Print Assumptions c11_inv_init.
+Redirect "out/C11.c11_inv_step_counters" Print Assumptions c11_inv_step_counters.
+Redirect "out/C11.c11_inv_reachable_counters" Print Assumptions c11_inv_reachable_counters.
+Redirect "out/C11.c11_counters_bool" Print Assumptions c11_counters_bool.
+Redirect "out/C11.c11_limit_size_bound" Print Assumptions c11_limit_size_bound.
+Redirect "out/C11.c11_inputs_add_partial" Print Assumptions c11_inputs_add_partial.
+Redirect "out/C11.c11_double_spend_refused" Print Assumptions c11_double_spend_refused.
+Redirect "out/C11.c11_inputs_remove_partial" Print Assumptions c11_inputs_remove_partial.
+Redirect "out/C11.c11_remove_with_descendants_gone" Print Assumptions c11_remove_with_descendants_gone.
+Redirect "out/C11.c11_rbf_rule" Print Assumptions c11_rbf_rule.
+Redirect "out/C11.c11_rbf_conflicts" Print Assumptions c11_rbf_conflicts.
+Redirect "out/C11.c11_rbf_conflicts_gone" Print Assumptions c11_rbf_conflicts_gone.
 Redirect "out/C11.c11_example_state" Print Assumptions c11_example_state.
+Redirect "out/C11.c11_example_small" Print Assumptions c11_example_small.
+Redirect "out/C11.c11_example_counters" Print Assumptions c11_example_counters.
 Redirect "out/C11.c11_add_with_children_refuted" Print Assumptions c11_add_with_children_refuted.
+Redirect "out/C11.c11_remove_inner_refuted" Print Assumptions c11_remove_inner_refuted.
+Redirect "out/C11.c11_add_evict_panic_refuted" Print Assumptions c11_add_evict_panic_refuted.
+Redirect "out/C11.c11_remove_with_descendants_old_refuted" Print Assumptions c11_remove_with_descendants_old_refuted.
+Redirect "out/C11.c11_remove_with_descendants_fixed_on_witness" Print Assumptions c11_remove_with_descendants_fixed_on_witness.
